@@ -38,7 +38,7 @@ def plan(tier):
 
 def floors(tier):
     return {"nontrivial": 30, "held:additive": 30, "counter:jtj_checks": 80, "counter:hessian_checks": 80, "counter:hessian_exact": 30,
-            "counter:psd_checks": 80, "counter:fd_crosschecks": 60, "class:weights": 15, "class:x0-ndarray-shared": 20, "counter:sibling_calls": 40, "counter:prior_calls": 100, "counter:jtj_full_output_calls": 30, "counter:prior_call_fisher_information": 10, "class:weights-zero-mask": 5, "class:target_param": 10, "class:obs-permuted": 10}
+            "counter:psd_checks": 80, "counter:fd_crosschecks": 60, "class:weights": 15, "class:x0-ndarray-shared": 20, "counter:sibling_calls": 40, "counter:prior_calls": 100, "counter:jtj_full_output_calls": 30, "counter:hessian_weighted_checks": 10, "counter:prior_call_fisher_information": 10, "class:weights-zero-mask": 5, "class:target_param": 10, "class:obs-permuted": 10}
 
 
 def run_case(rng, idx, tier, lane, ctx):
@@ -127,15 +127,22 @@ def run_case(rng, idx, tier, lane, ctx):
         bad("jtj raised", error=short_exc(e), tb=tb_tail(e))
     # ---- hessian (unit weights)
     nontriv = False
-    c.weight_arg, c.weights = None, None
+    # the square-loss cost is sum (w r)^2: with weights its second derivative is 2 sum w^2 S S^T - 2 sum w^2 r d2x.  Half of the weighted
+    # cases keep their weights for the Hessian, the others (and all unweighted ones) use unit weights
+    if c.weights is not None and rng.random() < 0.5:
+        cls.append("hessian-weighted")
+        counters["hessian_weighted_checks"] = 1
+    else:
+        c.weight_arg, c.weights = None, None
+    W2 = (c.weights if c.weights is not None else np.ones_like(c.y)) ** 2
     try:
         obj = LC.make_loss(c)
         sample["calls_made_before_hessian"] = LC.prior_calls(rng, c, obj, counters)
         r = c.y - X[:, c.obs_idx]                               # (n, p)
         Sob = S[:, c.obs_idx, :][:, :, pidx]
-        base = 2 * np.einsum("ija,ijb->ab", Sob, Sob)
-        second_full = -2 * np.einsum("ij,ijab->ab", r, FF[:, c.obs_idx][:, :, pidx][:, :, :, pidx])
-        second_trunc = -2 * np.einsum("ij,ijab->ab", r, FFt[:, c.obs_idx][:, :, pidx][:, :, :, pidx])
+        base = 2 * np.einsum("ij,ija,ijb->ab", W2, Sob, Sob)
+        second_full = -2 * np.einsum("ij,ijab->ab", W2 * r, FF[:, c.obs_idx][:, :, pidx][:, :, :, pidx])
+        second_trunc = -2 * np.einsum("ij,ijab->ab", W2 * r, FFt[:, c.obs_idx][:, :, pidx][:, :, :, pidx])
         H_full, H_trunc = base + second_full, base + second_trunc
         sc = float(np.max(np.abs(H_full))) + 1e-6 * (1.0 + float(np.max(np.abs(r))))
         nontriv = bool(np.linalg.norm(second_full) >= 0.01 * np.linalg.norm(base))
@@ -150,7 +157,7 @@ def run_case(rng, idx, tier, lane, ctx):
                 raise RuntimeError("ref")
             Xh, Sh, _ = out
             rh = c.y - Xh[:, c.obs_idx]
-            return -2 * np.einsum("ij,ija->a", rh, Sh[:, c.obs_idx, :][:, :, pidx])
+            return -2 * np.einsum("ij,ija->a", W2 * rh, Sh[:, c.obs_idx, :][:, :, pidx])
         try:
             h = 1e-4 * max(abs(free[k]), 0.1)
             col = (grad_at(h) - grad_at(-h)) / (2 * h)
